@@ -7,6 +7,7 @@ from typing import Set, List
 from ..loader import AnalysisError, norm_stmt, walk_own
 from ..consteval import ConstEval
 from .common import check as ob
+from ..canon import Canon, localise, each, custom
 
 EXPLANATION = (
     'Decides: (a) writer/reader agreement of the formula notation: the writer emits key + count with the key in '
@@ -45,9 +46,23 @@ def _isotope_predicate(expr) -> Set[str]:
     return out
 
 
+def _returned_name(c, fnode):
+    for n in ast.walk(fnode):
+        if isinstance(n, ast.Return) and isinstance(n.value, ast.Name) and c.is_local(n.value.id):
+            return n.value.id
+    return None
+
+
+def writer_func(program):
+    """write_chem_formula with its loop variables spelled k, v and its text accumulator s"""
+    return localise(program.func(f'{CU}:write_chem_formula'),
+                    {'k': each('composition.items()', (0,)), 'v': each('composition.items()', (1,)),
+                     's': custom(_returned_name)})
+
+
 def predicates(ctx, rep, clause):
     program = ctx.program
-    w = program.func(f'{CU}:write_chem_formula')
+    w = writer_func(program)
     m = program.func(f'{CU}:chem_mass')
     p = program.func(f'{CU}:_parse_isotope_component')
     found = {}
@@ -133,14 +148,27 @@ def token_language(ctx, rep, clause):
     # the writer never produces exponent notation through precision rounding of floats it formats with f'{v}'
     w = program.func(f'{CU}:write_chem_formula')
     # brackets are split off first
-    pc = program.func(f'{CU}:parse_chem_formula')
+    pc = localise(program.func(f'{CU}:parse_chem_formula'), {'component': each('_split_chem_formula(formula)')})
     txt = ' '.join(norm_stmt(s) for s in ast.walk(pc.node) if isinstance(s, (ast.For, ast.If)))
     ok = '_split_chem_formula(formula)' in txt and "component.startswith('[')" in txt and \
         '_parse_isotope_component(component[1:-1])' in txt and '_parse_condensed_chem_formula(component)' in txt
     ob(rep, 'TOK-formula', pc.fq, 'bracketed components go to the isotope parser, the rest to the condensed parser',
        ok, 'split first, then dispatch on the leading bracket', 'the dispatch between bracketed and condensed components '
        'changed', pc.loc(), clause)
-    sp = program.func(f'{CU}:_split_chem_formula')
+    def _cursor(c, fnode):
+        for n in ast.walk(fnode):
+            if isinstance(n, ast.While) and isinstance(n.test, ast.Compare) and isinstance(n.test.left, ast.Name) and \
+                    norm_stmt(n.test.comparators[0]) == 'len(formula)':
+                return n.test.left.id
+        return None
+
+    def _start(c, fnode):
+        for n in ast.walk(fnode):
+            if isinstance(n, ast.Call) and isinstance(n.func, ast.Attribute) and n.func.attr == 'index' and \
+                    len(n.args) == 2 and isinstance(n.args[1], ast.Name):
+                return n.args[1].id
+        return None
+    sp = localise(program.func(f'{CU}:_split_chem_formula'), {'i': custom(_cursor), 'component_start': custom(_start)})
     stxt = ' '.join(norm_stmt(s) for s in ast.walk(sp.node) if isinstance(s, (ast.If, ast.While, ast.Assign)))
     ok = "formula[i] == '['" in stxt and "formula.index(']', component_start)" in stxt and "not in '[]'" in stxt
     ob(rep, 'TOK-formula', sp.fq, 'components are delimited by [ and the next ]', ok, 'bracket-delimited',
@@ -205,7 +233,7 @@ def _under_not_in(f, st, d, k) -> bool:
 
 def writer_and_mass(ctx, rep, clause):
     program = ctx.program
-    w = program.func(f'{CU}:write_chem_formula')
+    w = writer_func(program)
     txt = ' '.join(norm_stmt(s) for s in ast.walk(w.node) if isinstance(s, (ast.If, ast.Return)))
     ok = 'if v != 0' in txt and ('v == 0' in txt)
     ob(rep, 'TOK-formula', w.fq, 'zero counts are dropped on the separated and on the condensed branch', ok,
@@ -215,7 +243,8 @@ def writer_and_mass(ctx, rep, clause):
              norm_stmt(n.body[0]) == 'formula = parse_chem_formula(formula, sep)' for n in walk_own(m.node))
     ob(rep, 'TOK-formula', m.fq, 'chem_mass(str) is chem_mass(parse_chem_formula(str, sep))', ok, 'by construction',
        'the string form is no longer parsed with the caller\'s separator', m.loc(), clause)
-    g = program.func('peptacular.glycan:write_glycan_formula')
+    g = localise(program.func('peptacular.glycan:write_glycan_formula'),
+                 {'component': each('glycan_dict.items()', (0,)), 'count': each('glycan_dict.items()', (1,))})
     ok = "f'{component}{sep}{count}'" in ' '.join(norm_stmt(s) for s in g.node.body)
     ob(rep, 'TOK-formula', g.fq, 'the glycan writer always writes the count', ok, 'name + count',
        'counts of 1 are omitted or the form changed', g.loc(), clause)
@@ -254,13 +283,88 @@ def glycan_tokenizer(ctx, rep, clause):
        'the tokenizer no longer iterates the length-sorted name list: a short name would shadow a longer one', f.loc(),
        clause)
     g = program.func('peptacular.mods.mod_db_setup:EntryDb._get_names_sorted')
-    txt = ' '.join(norm_stmt(s) for s in g.node.body)
-    ob(rep, 'TOK-glycan', g.fq, 'the name list is sorted by length, descending', 'key=lambda x: len(x), reverse=True' in txt,
+    txt = ' '.join(Canon(g.node).text(s) for s in g.node.body)
+    ob(rep, 'TOK-glycan', g.fq, 'the name list is sorted by length, descending',
+       'key=lambda arg0: len(arg0), reverse=True' in txt or 'key=len, reverse=True' in txt,
        'longest match first', 'the name list is not sorted longest-first', g.loc(), clause)
+
+
+def separator_literal(ctx, rep, clause):
+    """the separator is an arbitrary string chosen by the caller ('|' is documented): it may be handed to str.split /
+    str.join / f-strings / comparisons / a callee's own sep parameter, never to a regular expression unescaped"""
+    program = ctx.program
+    n = 0
+    for f in program.all_functions():
+        if f.module.name not in (CU, 'peptacular.glycan', 'peptacular.chem.chem_calc') or f.param('sep') is None:
+            continue
+        parents = {}
+        for node in ast.walk(f.node):
+            for ch in ast.iter_child_nodes(node):
+                parents[id(ch)] = node
+        for x in ast.walk(f.node):
+            if not (isinstance(x, ast.Name) and x.id == 'sep' and isinstance(x.ctx, ast.Load)):
+                continue
+            n += 1
+            cur, escaped, regex_call = x, False, None
+            while id(cur) in parents:
+                cur = parents[id(cur)]
+                if isinstance(cur, ast.Call):
+                    fn = norm_stmt(cur.func)
+                    if fn in ('re.escape', 'regex.escape'):
+                        escaped = True
+                    elif fn.split('.')[0] in ('re', 'regex') and '.' in fn:
+                        regex_call = cur
+                        break
+                if isinstance(cur, ast.stmt):
+                    break
+            ob(rep, 'CALL-literal', f.fq, f'the separator is used literally', regex_call is None or escaped,
+               'split / join / formatting', f'`{norm_stmt(regex_call)[:80] if regex_call is not None else ""}` puts the '
+               f"caller's separator into a regular expression without re.escape: for sep='|' (or '.', '+', ...) the "
+               f'pattern means something else and the written formula no longer parses back', f.loc(x), clause)
+    rep.floor('CALL-literal', 'uses of a sep parameter in the formula modules', n, 4)
+
+
+def explicit_zero(ctx, rep, clause):
+    """an omitted count means 1; a written count of 0 means 0 (the bundled monosaccharide table writes H0O3S1).
+    The default therefore has to be decided on the count *text*, never on the truthiness of the converted number"""
+    import re as _re
+    program = ctx.program
+    zero_in_data = []
+    with open(os.path.join(program.pkg_dir, 'data', 'monosaccharides_updated.obo')) as fh:
+        for line in fh:
+            m = _re.search(r'has_chemical_formula "([^"]+)"', line)
+            if m and _re.search(r'[A-Za-z]0(?![0-9.])', m.group(1)):
+                zero_in_data.append(m.group(1))
+    n = 0
+    for fname in ('_parse_condensed_chem_formula', '_parse_isotope_component', '_parse_split_chem_formula'):
+        f = program.func(f'{CU}:{fname}')
+        for x in walk_own(f.node):
+            if isinstance(x, ast.BoolOp) and isinstance(x.op, ast.Or) and \
+                    any(isinstance(c, ast.Call) and norm_stmt(c.func) in ('convert_type', 'int', 'float')
+                        for c in ast.walk(x.values[0])) and isinstance(x.values[-1], ast.Constant) and \
+                    isinstance(x.values[-1].value, (int, float)):
+                n += 1
+                ob(rep, 'TOK-formula', f.fq, 'the default count is chosen by the presence of the count text', False, '',
+                   f'`{norm_stmt(x)}` replaces every falsy count by {x.values[-1].value}: an explicit 0 '
+                   f'(bundled data: {zero_in_data[:2]}) is read as {x.values[-1].value}, so the composition is no longer '
+                   f'the count-weighted sum', f.loc(x), clause)
+        for x in walk_own(f.node):
+            if isinstance(x, ast.IfExp) and any(isinstance(c, ast.Call) and norm_stmt(c.func) == 'convert_type'
+                                               for c in ast.walk(x.body)):
+                n += 1
+                # the test must look at the same text that is converted
+                conv = [c for c in ast.walk(x.body) if isinstance(c, ast.Call) and norm_stmt(c.func) == 'convert_type'][0]
+                same = conv.args and norm_stmt(conv.args[0]) == norm_stmt(x.test)
+                ob(rep, 'TOK-formula', f.fq, f'`{norm_stmt(x)[:70]}`: the default applies iff the count text is empty',
+                   bool(same), 'tested on the text', f'the default is chosen by `{norm_stmt(x.test)}`, which is not the '
+                   f'text being converted', f.loc(x), clause)
+    rep.floor('TOK-formula', 'count defaults in the formula parsers', n, 2)
 
 
 def check(ctx, rep):
     rep.explanation = EXPLANATION
+    separator_literal(ctx, rep, 'C15a')
+    explicit_zero(ctx, rep, 'C15c')
     token_language(ctx, rep, 'C15a')
     predicates(ctx, rep, 'C15b')
     accumulate(ctx, rep, 'C15c')
